@@ -380,6 +380,8 @@ func idxRules(c *Ctx) {
 						if tl.b != isTop {
 							keyBad = append(keyBad, fmt.Sprintf("[%s] TopLevel evaluates to %v for a schema at %s", m, tl.b, ei.shape))
 						}
+					} else if tl != nil {
+						keyBad = append(keyBad, fmt.Sprintf("[%s] TopLevel of a schema at %s is not decided by the position alone (it depends on a name of the document or cannot be evaluated)", m, ei.shape))
 					}
 				}
 			}
